@@ -47,6 +47,9 @@ Step ==
      /\ CASE e.ev = "reset" -> ResetState(e.n0, e.order) /\ UNCHANGED hashes
           [] e.ev \in Producers -> Produce(e)
           [] e.ev \in Queries -> Query(e)
+          \* purity at size (C10): after every call on a 16 000-node diagram of a builder of its own no reachable node keeps scratch,
+          \* and count_nodes is the number of reachable nodes
+          [] e.ev = "bigpure" -> Req("C10", e.dirty = 0 /\ e.count = e.reach) /\ UNCHANGED tbvars
           [] e.ev = "burst" -> Req("C07", e.val = e.n) /\ UNCHANGED tbvars      \* n evaluations of a literal of another builder: nothing changes here
           [] e.ev = "panicpair" -> Req(TwinProp, e.npanic = e.cpanic) /\ UNCHANGED tbvars   \* one side panicked, the other did not
 
